@@ -7,15 +7,16 @@ from symx.scalar import Q
 from cr.cube.cube import Cube
 
 from . import common as C
+from .wire import world_for
 from .c01 import V
 
 META = {
     "title": "bases/margins = eligible respondents",
     "bounds": {
-        "quick": {"cat_valid": 2, "mr_items": 2, "ca": "2x2", "pairs": "CAT/MR squared, CA, CAT_DATE; 1-D CAT, MR; 3-D MR x CAT x CAT",
+        "quick": {"wire-level (one unknown per wire cell, positive head counts)": "MR(3) x CAT(3), CAT(3)+subtotal x MR(3), MR(3) x MR(2..3), 3-D CAT x MR(3) x CAT(3)", "cat_valid": 2, "mr_items": 2, "ca": "2x2", "pairs": "CAT/MR squared, CA, CAT_DATE; 1-D CAT, MR; 3-D MR x CAT x CAT",
                   "subtotals": "one bottom-anchored sum subtotal on rows and/or columns", "threshold": "symbolic real",
                   "data": "all pattern masses m,u >= 0"},
-        "thorough": {"cat_valid": 3, "mr_items": "2-3", "ca": "2x3", "subtotals": "rows and columns", "data": "all pattern masses"},
+        "thorough": {"wire-level (one unknown per wire cell, positive head counts)": "CAT(5)+2 subtotals squared, MR(5) x CAT(4)+subtotal and transposed, MR(4) x MR(4), 3-D MR(3) x CAT(3) x MR(2), MR(2) x MR(3) x MR(2), CAT(3) x CAT(4)+sub x CAT(3)+sub, MR(5) and CAT(6)+2 subtotals strands", "cat_valid": 3, "mr_items": "2-3", "ca": "2x3", "subtotals": "rows and columns", "data": "all pattern masses"},
     },
     "assumptions": ["A1: pattern masses m[p] >= 0, u[p] >= 0", "tabulator models the backend wire layout; floats are reals"],
     "outside": ["sizes beyond the bounds", "difference subtotals (C04)", "numeric-array dimensions"],
@@ -84,11 +85,11 @@ def _minmax(eng, B):
     return C.to_array([lo, hi])
 
 
-def two_d(eng, rows, cols, weighted=True, table=None, k=0, mask=True):
+def two_d(eng, rows, cols, weighted=True, table=None, k=0, mask=True, wire=False):
     spec = [rows, cols] if cols is not None else [rows]
     if table is not None:
         spec = [table] + spec
-    world = C.World(eng, spec)
+    world = world_for(eng, spec, wire)
     tau = eng.real("tau") if mask else 0
     cube = Cube(world.response(weighted=weighted), mask_size=tau)
     part = cube.partitions[k]
@@ -131,8 +132,8 @@ def two_d(eng, rows, cols, weighted=True, table=None, k=0, mask=True):
     return obs
 
 
-def one_d(eng, rows, weighted=True):
-    world = C.World(eng, [rows])
+def one_d(eng, rows, weighted=True, wire=False):
+    world = world_for(eng, [rows], wire)
     tau = eng.real("tau")
     cube = Cube(world.response(weighted=weighted), mask_size=tau)
     part = cube.partitions[0]
@@ -157,10 +158,12 @@ def one_d(eng, rows, weighted=True):
     return obs
 
 
-def Vs(kind, alias, size, missing_at=(1,), sub=None):
+def Vs(kind, alias, size, missing_at=(1,), sub=None, sub2=None):
     kw = {"missing_at": tuple(missing_at)}
     if sub:
         kw["insertions"] = [C.subtotal("S", sub)]
+    if sub2:
+        kw["insertions"].append(C.subtotal("S2", sub2))
     return (kind, alias, size, kw)
 
 
@@ -188,7 +191,23 @@ def specs(tier):
     add("1d mr", "one_d", dict(rows=V("mr", "a", 3)))
     add("3d mr x cat x cat p1", "two_d", dict(table=V("mr", "t", 2), rows=V("cat", "a", 2, (1,)), cols=V("cat", "b", 2, (1,)), k=1, mask=False))
     add("3d cat x cat x mr p1", "two_d", dict(table=V("cat", "t", 2, (1,)), rows=V("cat", "a", 2, (1,)), cols=V("mr", "b", 2), k=1, mask=False))
+    # wire-level worlds (props/wire.py): one unknown per wire cell, larger sizes
+    add("wire 2d mr3 x cat3", "two_d", dict(rows=V("mr", "a", 3), cols=V("cat", "b", 3, (1,)), wire=True, mask=False))
+    add("wire 2d cat3+sub x mr3", "two_d", dict(rows=Vs("cat", "a", 3, (0,), sub=[1, 3]), cols=V("mr", "b", 3), wire=True, mask=False))
+    add("wire 2d mr3 x mr3", "two_d", dict(rows=V("mr", "a", 3), cols=V("mr", "b", 3), wire=True, mask=False))
+    add("wire 3d cat x mr3 x cat3 p1", "two_d", dict(table=V("cat", "t", 2, (1,)), rows=V("mr", "a", 3), cols=V("cat", "b", 3, (0,)), k=1, mask=False, wire=True))
     if tier == "thorough":
+        add("wire 2d cat5+2sub x cat5+2sub", "two_d", dict(rows=Vs("cat", "a", 5, (2,), sub=[1, 4], sub2=[2, 3, 5]), cols=Vs("cat", "b", 5, (0, 3), sub=[2, 3], sub2=[1, 5]), wire=True, mask=False), max_paths=400)
+        add("wire 2d mr5 x cat4+sub", "two_d", dict(rows=V("mr", "a", 5), cols=Vs("cat", "b", 4, (1,), sub=[1, 2]), wire=True, mask=False), max_paths=400)
+        add("wire 2d cat4+sub x mr5", "two_d", dict(rows=Vs("cat", "a", 4, (4,), sub=[2, 4]), cols=V("mr", "b", 5), wire=True, mask=False), max_paths=400)
+        add("wire 2d mr4 x mr4", "two_d", dict(rows=V("mr", "a", 4), cols=V("mr", "b", 4), wire=True, mask=False), max_paths=400)
+        add("wire 2d mr2 x mr2 with mask", "two_d", dict(rows=V("mr", "a", 2), cols=V("mr", "b", 2), wire=True), max_paths=600)
+        add("wire 2d mr3 x mr3 unweighted", "two_d", dict(rows=V("mr", "a", 3), cols=V("mr", "b", 3), wire=True, mask=False, weighted=False), max_paths=400)
+        add("wire 3d mr3 x cat3 x mr2 p2", "two_d", dict(table=V("mr", "t", 3), rows=V("cat", "a", 3, (1,)), cols=V("mr", "b", 2), k=2, mask=False, wire=True), max_paths=400)
+        add("wire 3d mr2 x mr3 x mr2 p1", "two_d", dict(table=V("mr", "t", 2), rows=V("mr", "a", 3), cols=V("mr", "b", 2), k=1, mask=False, wire=True), max_paths=400)
+        add("wire 3d cat3 x cat4+sub x cat3+sub p2", "two_d", dict(table=V("cat", "t", 3, (0,)), rows=Vs("cat", "a", 4, (1,), sub=[1, 3]), cols=Vs("cat", "b", 3, (3,), sub=[1, 2]), k=2, mask=False, wire=True), max_paths=400)
+        add("wire 1d mr5", "one_d", dict(rows=V("mr", "a", 5), wire=True))
+        add("wire 1d cat6+2sub", "one_d", dict(rows=Vs("cat", "a", 6, (2, 5), sub=[1, 6], sub2=[2, 3, 4]), wire=True))
         add("2d cat3 x cat3", "two_d", dict(rows=V("cat", "a", 3, (1,)), cols=V("cat", "b", 3, (0, 2))), max_paths=400)
         add("2d cat3+sub x cat3+sub", "two_d", dict(rows=Vs("cat", "a", 3, (3,), sub=[1, 3]), cols=Vs("cat", "b", 3, (0,), sub=[2, 3])), max_paths=400)
         add("2d cat3 x mr", "two_d", dict(rows=V("cat", "a", 3, (1,)), cols=V("mr", "b", 2)), max_paths=400)
